@@ -24,6 +24,7 @@ import (
 	"github.com/prometheus/client_golang/prometheus"
 	"github.com/prometheus/common/model"
 	"github.com/prometheus/prometheus/model/labels"
+	"tkestack.io/kvass/pkg/prom"
 	"tkestack.io/kvass/pkg/shard"
 	"tkestack.io/kvass/pkg/sidecar"
 	"tkestack.io/kvass/pkg/target"
@@ -77,7 +78,8 @@ func stAssignment(name string) map[string][]*target.Target {
 	case "A2":
 		return map[string][]*target.Target{
 			"j1": {mk(11, "j1", "10.0.0.1:9100", "in_transfer", 7, 9),
-				mk(12, "j1", "10.0.0.2:9100", "", 100, 2000, labels.Label{Name: "note", Value: "quote\" back\\slash \n newline <&> é中文 }{][,:"})},
+				mk(12, "j1", "10.0.0.2:9100", "", 100, 2000, labels.Label{Name: "note", Value: "quote\" back\\slash \n newline <&> é中文 }{][,:"},
+					labels.Label{Name: "ctl", Value: "esc\x1b bel\x07 vt\x0b del\x7f tag\U000e0001 nul-free"})},
 			"job/with \"odd\" name": {mk(18446744073709551615, "job/with \"odd\" name", "[fe80::1]:9100", "", 0, 0)},
 		}
 	case "A3":
@@ -182,11 +184,20 @@ func cmdStoreChild(args []string) error {
 			}
 		}
 	}
-	err := m.UpdateTargets(&shard.UpdateTargetsRequest{Targets: stAssignment(*b)})
+	// the rejected-and-repeated updates arrive as the coordinator sends them: through the sidecar's HTTP handler
+	cfgm := prom.NewConfigManager()
+	sw := &sideWorld{svc: sidecar.NewService("", "http://127.0.0.1:9090", func() (int64, error) { return 0, nil }, cfgm, m, prometheus.NewRegistry(), quietLog())}
+	post := func() error {
+		if !*retry && !*cbfail {
+			return m.UpdateTargets(&shard.UpdateTargetsRequest{Targets: stAssignment(*b)}) // the manager's own entry point
+		}
+		return sw.apiPost("/api/v1/shard/targets/", &shard.UpdateTargetsRequest{Targets: stAssignment(*b)}, nil)
+	}
+	err := post()
 	if err != nil && *retry {
 		fmt.Println("REJECTED", err)
 		_ = syscall.Setrlimit(syscall.RLIMIT_FSIZE, &old)
-		err = m.UpdateTargets(&shard.UpdateTargetsRequest{Targets: stAssignment(*b)}) // a fresh request with the same content
+		err = post() // a fresh request with the same content
 	}
 	if err != nil {
 		fmt.Println("NACK", err)
@@ -271,7 +282,17 @@ func runStoreCase(self string, c *stCase) stObs {
 	}
 	cmd := exec.Command(self, "store-child", "-dir", ref, "-b", c.B, "-limit", "-1", "-tick", "5")
 	if outb, err := cmd.CombinedOutput(); err != nil {
-		panic(fmt.Sprintf("reference child failed: %v %s", err, outb))
+		if strings.Contains(string(outb), "LOADFAIL") {
+			// the store that holds the acknowledged a (written by the code under test, no fault) can not be loaded:
+			// that is a failing start, not a problem of the harness
+			o.ChildErr = strings.TrimSpace(string(outb))
+			o.Starts = []stStart{{OK: false, Resumed: "empty", Detail: "start on the store of the acknowledged previous assignment: " + o.ChildErr}, {OK: false, Resumed: "empty"}}
+			return o
+		}
+		if !strings.Contains(string(outb), "NACK") {
+			panic(fmt.Sprintf("reference child failed: %v %s", err, outb))
+		}
+		o.ChildErr = "fault-free update rejected: " + strings.TrimSpace(string(outb))
 	}
 	if fi, err := os.Stat(filepath.Join(ref, "kvass-shard.json")); err == nil {
 		o.FileLen = int(fi.Size())
